@@ -18,8 +18,13 @@ def _init():
 
 
 def to_ts(t):
+    """reference time of a case: a tuple of datetime fields; a trailing string 'tz<minutes>' makes it timezone-aware with that
+    UTC offset (the library reads the wall-clock fields of the reference time, whatever zone it is in)"""
     if t is None:
         return None
+    if t and isinstance(t[-1], str) and t[-1].startswith("tz"):
+        from datetime import timezone, timedelta
+        return datetime(*t[:-1], tzinfo=timezone(timedelta(minutes=int(t[-1][2:]))))
     return datetime(*t)
 
 
